@@ -37,7 +37,8 @@ func (v *ScriptView) writeCreateSQLForATable(
 		tableData += s
 	}
 	tableData = v.addConstraints(tableData, tableName, foreignKeyConstraints, primaryKeys)
-	tableData = strings.TrimSuffix(tableData, ",")
+	// without any constraint the last column line ends in ",\n": drop that comma as well
+	tableData = strings.TrimSuffix(strings.TrimRight(tableData, "\n"), ",")
 	v.stringBuilder.WriteString(tableData)
 	v.stringBuilder.WriteString("\n);\n")
 }
